@@ -648,3 +648,55 @@ def _register_m2i():
 
 
 _register_m2i()
+
+
+def m2i_lnotab_step():
+    def build():
+        src = rewrite.Source.of(L)
+        fn = src.get_def("mapping_to_items")
+        loops = [n for n in fn.body if isinstance(n, ast.For)]
+        if len(loops) != 1 or ast.unparse(loops[0].target) != "(bytecode_offset, line_number)":
+            raise rewrite.BindingError("mapping_to_items: the lnotab loop changed")
+        ret = ast.parse("return (last_line_number, last_bytecode_offset)").body[0]
+        return rewrite.make_function("m2i_lnotab_step", ["items", "mapping", "bytecode_offset", "line_number", "last_line_number", "last_bytecode_offset"], list(loops[0].body) + [ret],
+                                     L.__name__, "mapping_to_items", "body of the lnotab loop on a generic mapping entry")
+    return cached("lm.m2i_lnotab_step", build)
+
+
+def _register_m2i_lnotab():
+    for n_extra in (0, 1, 2):
+        def h(ctx, cfg, n_extra=n_extra):
+            frag = m2i_lnotab_step()
+            ns = rewrite.compile_defs(L, [copy.deepcopy(frag)], {"pvhook_sum": lambda xs: sum(xs, 0) if xs else 0, "pvhook_list": list}, "mapping_to_items:lnotab-step")
+            step = ns["m2i_lnotab_step"]
+            last_line, last_bo = ctx.input("reader_line", SymInt.fresh("last_line")), ctx.input("reader_address", SymInt.fresh("last_bo"))
+            bo, ln = ctx.input("entry_offset", SymInt.fresh("bo")), ctx.input("entry_line", SymInt.fresh("ln"))
+            ctx.assume(z3.And(last_bo.z >= 0, bo.z >= last_bo.z), "pre: entries are visited in ascending order")
+            extra = [ctx.input("extra%d" % k, SymInt.fresh("extra%d" % k)) for k in range(n_extra)]
+
+            class Extras:
+                def get(self, k, default):
+                    return list(extra) if extra else default
+            mapping = L.LineMapping.__new__(L.LineMapping)
+            mapping.offset_to_line, mapping.offset_to_additional_line_offsets = {}, Extras()
+            items = []
+            ll2, lb2 = step(items, mapping, bo, ln, last_line, last_bo)
+            sum_l = sum((Z(i.line_offset) for i in items), z3.IntVal(0))
+            sum_b = sum((Z(i.bytecode_offset) for i in items), z3.IntVal(0))
+            ctx.prove("step.line_deltas_lead_the_reader_from_its_line_to_the_entry's_line", sum_l == ln.z - last_line.z)
+            if items:
+                ctx.prove("step.address_deltas_lead_the_reader_to_the_entry's_offset", sum_b == bo.z - last_bo.z)
+                ctx.prove("step.only_the_first_emitted_entry_carries_an_address_delta", z3.And(*[Z(i.bytecode_offset) == 0 for i in items[1:]]) if len(items) > 1 else z3.BoolVal(True))
+                ctx.prove("step.extra_zero_width_entries_reproduced_in_order", z3.And(*[Z(a.line_offset) == e.z for a, e in zip(items[len(items) - n_extra:], extra)]) if n_extra else z3.BoolVal(True))
+                ctx.prove("invariant.reader_address_is_the_entry's_offset", Z(lb2) == bo.z)
+            else:
+                ctx.prove("step.nothing_emitted_only_when_the_line_is_unchanged", z3.And(ln.z == last_line.z, z3.BoolVal(n_extra == 0)))
+                ctx.prove("invariant.reader_address_unchanged", Z(lb2) == last_bo.z)
+            ctx.prove("invariant.reader_line_is_the_entry's_line", Z(ll2) == ln.z)
+        harness("lm.mapping_to_items.lnotab_step[extra_entries=%d]" % n_extra, props=["C10", "C01", "C03"], functions=["code_data._line_mapping.mapping_to_items"], configs=["3.7", "3.8", "3.9"],
+                assumes=["induction over the mapping entries is the meta-step"],
+                notes="lnotab format: loop body on a generic mapping entry with %d recorded zero-width entries, under the invariant 'the reader stands at (last offset, last line)': "
+                      "the emitted entries lead PyCode_Addr2Line's reader exactly to (entry offset, entry line); unbounded values" % n_extra)(h)
+
+
+_register_m2i_lnotab()
